@@ -80,5 +80,59 @@ fn main() {
             if iso(&base, &other) || iso(&other, &base) { fail("blind to a size difference", qs, "second quad dropped".into()); }
         }
     }
+    // statements that differ once blank nodes are blanked out, in ways the shapes above do not reach: nesting
+    // shape of two-level quoted triples, literal components, term kinds, graph name; each pair alone and next to a
+    // quad with blank nodes, both argument orders, graphs and datasets
+    {
+        use sophia_isomorphism::isomorphic_graphs;
+        let q = |s: T, p: T, o: T| SimpleTerm::Triple(Box::new([s, p, o]));
+        let lit = |l: &str, d: &str| SimpleTerm::LiteralDatatype(l.to_string().into(), IriRef::new_unchecked(d.to_string().into()));
+        let lang = |l: &str, t: &str| SimpleTerm::LiteralLanguage(l.to_string().into(), sophia_api::term::LanguageTag::new_unchecked(t.to_string().into()));
+        let (a, b, c, d, e, p) = (iri("x:a"), iri("x:b"), iri("x:c"), iri("x:d"), iri("x:e"), iri("x:p"));
+        let pairs: Vec<(&str, T, T)> = vec![
+            ("nesting shape (inner triple as subject vs object)", q(q(a.clone(), b.clone(), c.clone()), d.clone(), e.clone()), q(a.clone(), b.clone(), q(c.clone(), d.clone(), e.clone()))),
+            ("nesting shape with a blank node outside the moved part", q(q(a.clone(), b.clone(), c.clone()), d.clone(), bn("k")), q(a.clone(), b.clone(), q(c.clone(), d.clone(), bn("k")))),
+            ("two-level nesting, innermost object", q(a.clone(), p.clone(), q(b.clone(), p.clone(), c.clone())), q(a.clone(), p.clone(), q(b.clone(), p.clone(), d.clone()))),
+            ("language tag", lang("a", "en"), lang("a", "fr")),
+            ("language tag vs none", lang("a", "en"), lit("a", "http://www.w3.org/2001/XMLSchema#string")),
+            ("datatype", lit("1", "x:d1"), lit("1", "x:d2")),
+            ("lexical form", lit("1", "x:d1"), lit("01", "x:d1")),
+            ("literal vs IRI with the same text", lit("x:a", "x:d1"), a.clone()),
+            ("IRI vs quoted triple", a.clone(), q(a.clone(), p.clone(), a.clone())),
+            ("literal inside a quoted triple", q(a.clone(), p.clone(), lang("a", "en")), q(a.clone(), p.clone(), lang("a", "fr"))),
+        ];
+        for (what, t1, t2) in &pairs {
+            for extra in [false, true] {
+                for as_subject in [false, true] {
+                    if as_subject && (matches!(t1, SimpleTerm::LiteralDatatype(..) | SimpleTerm::LiteralLanguage(..)) || matches!(t2, SimpleTerm::LiteralDatatype(..) | SimpleTerm::LiteralLanguage(..))) { continue; }
+                    // holder: the other end of the statement is a blank node, or an IRI (then the statement is ground
+                    // unless the pair itself holds a blank node)
+                    for ground_holder in [false, true] {
+                    let mk = |t: &T, x: &str| -> Vec<[T; 3]> {
+                        let other_end = if ground_holder { iri("x:h") } else { bn(x) };
+                        let mut v = vec![if as_subject { [t.clone(), p.clone(), other_end] } else { [other_end, p.clone(), t.clone()] }];
+                        if extra { v.push([bn(x), p.clone(), bn("other")]); }
+                        v
+                    };
+                    let (g1, g2, g1r) = (mk(t1, "x"), mk(t2, "u"), mk(t1, "u"));
+                    n += 1;
+                    if isomorphic_graphs(&g1, &g2).unwrap() || isomorphic_graphs(&g2, &g1).unwrap() { println!("{{\"mismatch\":\"blind to a ground difference\",\"detail\":{:?},\"a\":\"{:?}\",\"b\":\"{:?}\"}}", what, g1, g2); std::process::exit(1); }
+                    if !isomorphic_graphs(&g1, &g1r).unwrap() || !isomorphic_graphs(&g1r, &g1).unwrap() { println!("{{\"mismatch\":\"false negative on a renamed copy\",\"detail\":{:?},\"a\":\"{:?}\"}}", what, g1); std::process::exit(1); }
+                    let d1: Vec<Spog<T>> = g1.iter().map(|t| (t.clone(), Some(bn("x")))).collect();
+                    let d2: Vec<Spog<T>> = g2.iter().map(|t| (t.clone(), Some(bn("u")))).collect();
+                    if iso(&d1, &d2) || iso(&d2, &d1) { println!("{{\"mismatch\":\"blind to a ground difference (dataset, blank graph name)\",\"detail\":{:?}}}", what); std::process::exit(1); }
+                    let d1: Vec<Spog<T>> = g1.iter().map(|t| (t.clone(), None)).collect();
+                    let d2: Vec<Spog<T>> = g2.iter().map(|t| (t.clone(), None)).collect();
+                    if iso(&d1, &d2) || iso(&d2, &d1) { println!("{{\"mismatch\":\"blind to a ground difference (dataset, default graph)\",\"detail\":{:?}}}", what); std::process::exit(1); }
+                    }
+                }
+            }
+        }
+        // graph name: default vs named vs blank
+        let tq = [a.clone(), p.clone(), bn("x")];
+        let (dd, dn): (Vec<Spog<T>>, Vec<Spog<T>>) = (vec![(tq.clone(), None)], vec![(tq.clone(), Some(a.clone()))]);
+        n += 1;
+        if iso(&dd, &dn) || iso(&dn, &dd) { println!("{{\"mismatch\":\"blind to the graph name (default vs named)\"}}"); std::process::exit(1); }
+    }
     println!("{{\"ok\":true,\"cases\":{}}}", n);
 }
